@@ -164,6 +164,9 @@ func RunDaemon() {
 			ui.Info("Received SIGTERM signal, exiting...")
 			return nil
 		}, func(err error) {
+			// stop signal delivery before closing the channel: a further
+			// SIGTERM/SIGINT would otherwise be sent on a closed channel (panic)
+			signal.Stop(sig)
 			defer close(sig)
 			cancel()
 		})
